@@ -1,27 +1,40 @@
-(* The tables the translator recovered from abi.go equal the specification's. *)
-From V Require Import Model.AbiSpec Gen.AbiTables.
+(* The tables the translator recovered from abi.go equal the specification's
+   (each wherever the translator could read the function: see Lib/Tie.v). *)
+From V Require Import Lib.Tie Model.AbiSpec Gen.AbiTables.
 From Coq Require Import String.
 
 Lemma header_tables_ok :
-  header_parse_table = spec_header_table /\ header_ser_table = spec_header_table /\
-  header_ser_size = "48"%string /\ header_check_table = spec_header_checks.
-Proof. repeat split; reflexivity. Qed.
+  tied header_parse_table_readable header_parse_table spec_header_table /\
+  tied header_ser_table_readable header_ser_table spec_header_table /\
+  tied header_ser_table_readable header_ser_size "48"%string /\
+  tied header_check_table_readable header_check_table spec_header_checks.
+Proof. repeat split; tie. Qed.
 
 Lemma body_tables_ok :
-  body_parse_table = spec_body_parse_table /\ body_ser_table = spec_body_ser_table /\
-  body_ser_size = "584"%string /\ body_check_table = spec_body_checks.
-Proof. repeat split; reflexivity. Qed.
+  tied body_parse_table_readable body_parse_table spec_body_parse_table /\
+  tied body_ser_table_readable body_ser_table spec_body_ser_table /\
+  tied body_ser_table_readable body_ser_size "584"%string /\
+  tied body_check_table_readable body_check_table spec_body_checks.
+Proof. repeat split; tie. Qed.
 
 Lemma report_tables_ok :
-  report_parse_table = spec_report_table /\ report_ser_table = spec_report_table /\
-  report_ser_size = "384"%string /\ report_check_table = spec_report_checks.
-Proof. repeat split; reflexivity. Qed.
+  tied report_parse_table_readable report_parse_table spec_report_table /\
+  tied report_ser_table_readable report_ser_table spec_report_table /\
+  tied report_ser_table_readable report_ser_size "384"%string /\
+  tied report_check_table_readable report_check_table spec_report_checks.
+Proof. repeat split; tie. Qed.
 
 Lemma tail_tables_ok :
-  signed_parse_table = spec_signed_table /\ signed_check_table = spec_signed_checks /\
-  certdata_parse_table = spec_certdata_table /\ certdata_check_table = spec_certdata_checks /\
-  qercd_parse_table = spec_qercd_table /\ qercd_check_table = spec_qercd_checks /\
-  auth_parse_table = spec_auth_table /\ auth_check_table = spec_auth_checks /\
-  pck_parse_table = spec_pck_table /\ pck_check_table = spec_pck_checks /\
-  quote_parse_table = spec_quote_table /\ quote_check_table = spec_quote_checks.
-Proof. repeat split; reflexivity. Qed.
+  tied signed_parse_table_readable signed_parse_table spec_signed_table /\
+  tied signed_check_table_readable signed_check_table spec_signed_checks /\
+  tied certdata_parse_table_readable certdata_parse_table spec_certdata_table /\
+  tied certdata_check_table_readable certdata_check_table spec_certdata_checks /\
+  tied qercd_parse_table_readable qercd_parse_table spec_qercd_table /\
+  tied qercd_check_table_readable qercd_check_table spec_qercd_checks /\
+  tied auth_parse_table_readable auth_parse_table spec_auth_table /\
+  tied auth_check_table_readable auth_check_table spec_auth_checks /\
+  tied pck_parse_table_readable pck_parse_table spec_pck_table /\
+  tied pck_check_table_readable pck_check_table spec_pck_checks /\
+  tied quote_parse_table_readable quote_parse_table spec_quote_table /\
+  tied quote_check_table_readable quote_check_table spec_quote_checks.
+Proof. repeat split; tie. Qed.
